@@ -111,9 +111,29 @@ def _max(*args, key=None, default=None):
     return _minmax("max", args, key, default)
 
 
+class SymRange:
+    """range(start, stop) with symbolic bounds: can be returned and inspected, not iterated"""
+
+    def __init__(self, start, stop):
+        self.start, self.stop, self.step = start, stop, 1
+
+    def __symlen__(self):
+        return _max(self.stop - self.start, 0)
+
+    def __iter__(self):
+        raise Unsupported("iteration over range() with a symbolic bound (needs a loop contract)")
+
+    def __contains__(self, k):
+        return bool(sym.SymBool(sym.to_bool_term((self.start <= k)) if False else sym.to_bool_term(self.start <= k)) & (k < self.stop))
+
+
 def _range(*args):
     if any(_real_isinstance(a, SymBase) for a in args):
-        raise Unsupported("range() with a symbolic bound (needs a loop contract)")
+        if _real_len(args) == 1:
+            return SymRange(0, args[0])
+        if _real_len(args) == 2:
+            return SymRange(args[0], args[1])
+        raise Unsupported("range() with a symbolic step")
     return _b.range(*args)
 
 
